@@ -566,6 +566,8 @@ class Interp:
                 return ("bound", mod.funcs[n.id], None)
             if mod is not None and n.id in mod.assigns:
                 return self.eval(mod.assigns[n.id], {}, func, depth)
+            if mod is not None and n.id in mod.imports and mod.imports[n.id] == ("dataclasses", "astuple"):
+                return ("builtin", "astuple")
             if mod is not None and n.id in mod.imports and mod.imports[n.id][0] in ("itertools", "functools") \
                     and mod.imports[n.id][1] in ("islice", "chain", "reduce", "count", "zip_longest"):
                 return ("builtin", mod.imports[n.id][1])
@@ -587,7 +589,7 @@ class Interp:
             if n.id in BUILTIN_EXC or n.id in ("len", "min", "max", "abs", "type", "isinstance", "str", "int", "sum",
                                                "any", "all", "sorted", "reversed", "list", "tuple", "zip", "range",
                                                "enumerate", "set", "bool", "iter", "next", "repr", "dict", "frozenset", "hash", "slice",
-                                               "getattr", "hasattr", "object", "print", "id"):
+                                               "getattr", "hasattr", "object", "print", "id", "map"):
                 return ("builtin", n.id)
             raise Uninterpretable(f"name {n.id} in {func.qual if func else '?'}")
         if t is ast.Attribute:
@@ -828,6 +830,24 @@ class Interp:
             o = Obj(f.name)
             if init is not None:
                 self.call_func(init, args, kwargs, o, depth + 1)
+            elif any("dataclass" in d for k in self.repo.mro(c) for d in k.decorators):
+                fields = []
+                for k in reversed(self.repo.mro(c)):
+                    for nm in k.order:
+                        if nm in k.annots and nm not in fields:
+                            fields.append(nm)
+                if len(args) > len(fields):
+                    raise Raised("TypeError", "too many arguments")
+                vals = dict(zip(fields, args))
+                vals.update(kwargs)
+                for nm in fields:
+                    if nm not in vals:
+                        d = self.repo.lookup_attr(c, nm)
+                        if d is None:
+                            raise Raised("TypeError", f"missing argument {nm}")
+                        vals[nm] = self.eval(d, {}, func, depth)
+                    o.fields[nm] = vals[nm]
+                o.fields["__dataclass_fields__"] = tuple(fields)
             return o
         if isinstance(f, tuple) and f and f[0] == "builtin":
             return self.builtin(f[1], args, kwargs, func, depth)
@@ -943,6 +963,10 @@ class Interp:
                 return 0
 
             return [x for _, x in sorted(items, key=functools.cmp_to_key(cmp), reverse=rev)]
+        if name == "map":
+            return _Gen([self.apply(args[0], [x], {}, func, depth) for x in self.iterate(args[1])])
+        if name == "astuple":
+            return tuple(args[0].fields[k] for k in args[0].fields["__dataclass_fields__"])
         if name == "islice":
             seq = self.iterate(args[0])
             return _Gen(seq[slice(*args[1:])])
